@@ -52,6 +52,11 @@ func runC14(t *simrt.Tape, o Opts) Outcome {
 		}
 		sc := t.Choose(scCount, "scenario")
 		pol := world.GenPolicy(t, world.GenOpts{AllowTinyLFU: allowTinyLFU})
+		// a quarter of the races are between hosts whose clocks disagree by less than, or a few times,
+		// the creation-stamp precision (racers then collide on neighbouring stamps as well as equal ones)
+		if t.Choose(4, "clock-skew") == 1 {
+			w.ClockSkews = []time.Duration{0, 300 * time.Millisecond, -300 * time.Millisecond, pol.Precision, -pol.Precision, 3 * pol.Precision, -3 * pol.Precision}
+		}
 		pol.Precision = []time.Duration{time.Minute, time.Hour, time.Second}[t.Choose(3, "prec")]
 		nproc := 2 + t.Choose(2, "nproc")
 		part := "a"
